@@ -45,6 +45,17 @@ func (b *EventBox) Set(event EventType, value any) {
 	b.cond.L.Unlock()
 }
 
+// Update atomically replaces the value of the event with the result of the
+// given function, which receives the pending value (nil if the event is not set)
+func (b *EventBox) Update(event EventType, update func(pending any) any) {
+	b.cond.L.Lock()
+	b.events[event] = update(b.events[event])
+	if _, found := b.ignore[event]; !found {
+		b.cond.Broadcast()
+	}
+	b.cond.L.Unlock()
+}
+
 // Clear clears the events
 // Unsynchronized; should be called within Wait routine
 func (events *Events) Clear() {
